@@ -86,9 +86,9 @@ Section Rules.
     apply bind_inv_pres0 in H1 as (given_blob & s5 & Hp & W5 & E5 & H1); [|apply pres_push|assumption].
     apply bind_inv in H1 as (sty & s6 & Hs & H1). apply ShapesDecl_var_ty_inv in Hs as [-> ->].
     apply bind_inv_pres0 in H1 as (u1 & s7 & Hu1 & W7 & E7 & H1); [|apply (TcInv.pres_unify G PG)|assumption].
-    apply bind_inv_pres0 in H1 as (ret0 & s8 & Hr0 & W8 & E8 & H1); [|apply pres_push|assumption].
+    assert (W8 : wf s7) by exact W7. assert (E8 : ext s7 s7) by apply ext_refl.
     apply bind_inv_pres0 in H1 as (u2 & s9 & Hit & W9 & E9 & H1);
-      [|apply pres_iterM; intros y; pose proof PG; pose proof (PA f); prs; apply (ap_expr _ (PA f))|assumption].
+      [|apply pres_foldM; intros b0 y; pose proof PG; pose proof (PA f); prs; apply (ap_expr _ (PA f))|assumption].
     apply bind_inv in H1 as (uf & s10 & Hf & H1). injection H1 as <- <- <-.
     destruct (unify_result_head _ _ _ _ _ _ _ W9 Hf) as (W10 & E10 & Hru & Heq).
     assert (E3x : ext s3 s10).
